@@ -45,6 +45,29 @@ def run_real(rd, case):
     return inv, n0, ts, dec
 
 
+def exercise_other_calls(rd, view, inv, dec, t, tu, k):
+    """between two cases: other public calculations on the objects just used (a decayed inventory holds stable
+    nuclides; cumulative decays; the high-precision class) — a later case must not be affected by them — and the
+    nuclides of a mixture decayed one by one must give exactly their own chains"""
+    msgs = []
+    try:
+        if k % 3 == 0:
+            dec.cumulative_decays(t if t > 0 else 1.0, tu)
+        if k % 17 == 0 and len(inv.contents) <= 2:
+            rd.InventoryHP({n: 1.0 for n in inv.contents}, "num").cumulative_decays(1.0, "d")
+        if len(inv.contents) > 1:
+            for nm in inv.contents:
+                alone = rd.Inventory({nm: 1.0}, "num").decay(t, tu)
+                want = sorted(view.names[i] for i in view.descendants([view.index[nm]]))
+                if list(alone.contents) != want:
+                    msgs.append(f"after decaying a mixture holding {nm}, decaying {nm} alone gives {list(alone.contents)[:6]}…, "
+                                f"its chain is {want[:6]}…")
+                    break
+    except Exception as e:  # noqa: BLE001
+        msgs.append(f"follow-up calculation raised {type(e).__name__}: {e}")
+    return msgs
+
+
 def judge_case(rd, view, case, n0_names, ts, dec, encl, report):
     """encl: {idx: (lo, hi)} exact enclosures of the true solution for (n0, ts)"""
     names = view.names
@@ -98,9 +121,13 @@ def correspondence(rep, ctx, ncases=None, oracle_kind="lean"):
             for mult in (0.01, 1.0, 40.0):
                 cases.append(({view.names[i]: 1.0e6}, "num", float(mult / view.rate[i]), "s"))
     reals = []
-    for c in cases:
+    for k_, c in enumerate(cases):
         try:
             reals.append(run_real(rd, c))
+            extra = exercise_other_calls(rd, view, reals[-1][0], reals[-1][3], c[2], c[3], k_)
+            for m_ in extra[:1]:
+                rep.violation("failing-input", f"Inventory({c[0]!r}, {c[1]!r}).decay({c[2]!r}, {c[3]!r}): {m_}",
+                              {"call": "decay", "contents": c[0], "unit": c[1], "t": c[2], "tu": c[3]}, True)
         except Exception as e:  # noqa: BLE001
             rep.violation("failing-input", f"decay raised {type(e).__name__}: {e}", {"case": repr(c)}, True)
             reals.append(None)
